@@ -75,6 +75,15 @@ class Pool(object):
         for r in cnf.get_runs():
             b = r.benchmark
             self.bench[(b.name, b.suite.executor.name, b.suite.name, b.extra_args)] = b
+        # the same suites and executors as another experiment would use them: other invocations / warm-up / env —
+        # settings that are no column of the summary
+        cfg2 = dict(cfg, runs={'invocations': 7, 'warmup': 1, 'env': {'TWIN': '1'}})
+        conf2 = drive.write_config(workdir, cfg2, 'pool2.conf')
+        cnf2 = Configurator(load_config(conf2), P.DataStore(ui), ui, opts, data_file=os.path.join(workdir, 'pool.data'))
+        self.twin = {}
+        for r in cnf2.get_runs():
+            b = r.benchmark
+            self.twin[(b.name, b.suite.executor.name, b.suite.name, b.extra_args)] = b
         if len(self.bench) != len(NAMES) * len(EXECS) * len(SUITES) * len(EXTRAS):
             raise lib.InfraError('benchmark pool incomplete: %d' % len(self.bench))
 
@@ -94,7 +103,13 @@ class UIRec(object):
 
 # ------------------------------------------------------------------ generator: run sets
 def gen_samples(rng):
-    kind = rng.choice(['none', 'none', 'one-half', 'pair-tie', 'ints', 'floats', 'big', 'many'])
+    kind = rng.choice(['none', 'none', 'one-half', 'pair-tie', 'ints', 'floats', 'big', 'many'] + (['nonfinite'] if rng.random() < 0.04 else []))
+    if kind == 'nonfinite':
+        # a harness that printed 1e999ms / nan: the total of a data point is inf, -inf or nan
+        vals = [rng.uniform(0, 500) for _ in range(rng.randint(0, 3))] + [rng.choice([float('inf'), float('nan'), float('-inf')])
+                                                                      for _ in range(rng.randint(1, 2))]
+        rng.shuffle(vals)
+        return kind, vals
     if kind == 'none':
         return kind, []
     if kind == 'one-half':
@@ -151,6 +166,11 @@ def gen_run_set(rng, n=None, vary=None):
         failed = (not samples and rng.random() < 0.8) or rng.random() < 0.1
         runs.append({'bench': list(combo[:4]), 'cores': combo[4], 'size': combo[5], 'var': combo[6], 'tag': combo[7],
                      'machine': combo[8], 'dps': dps, 'failed': failed, 'kind': kind})
+        if len(runs) < n and rng.random() < 0.12:
+            # the same benchmark as another experiment runs it: every identifying column equal, other settings
+            k2, s2 = gen_samples(rng)
+            runs.append(dict(runs[-1], twin=True, kind=k2, failed=not s2,
+                             dps=[{'v': v, 'warm': False, 'loaded': False} for v in s2]))
     return {'runs': runs, 'vary': sorted(vary)}
 
 
@@ -169,7 +189,7 @@ def make_runs(pool, case, ui):
     ds = P.DataStore(ui)
     runs = []
     for r in case['runs']:
-        b = pool.bench[(r['bench'][0], r['bench'][1], r['bench'][2], r['bench'][3])]
+        b = (pool.twin if r.get('twin') else pool.bench)[(r['bench'][0], r['bench'][1], r['bench'][2], r['bench'][3])]
         run = ds.create_run_id(b, r['cores'], r['size'], r['var'], r['tag'], r['machine'])
         inv = 0
         for i, d in enumerate(r['dps']):
@@ -250,12 +270,23 @@ def model_runs(case, order):
     out = []
     for i in order:
         r = case['runs'][i]
-        out.append({'ident': expected_ident(r), 'samples': [lib.frac(v) for v in samples_of(r)], 'failed': bool(r['failed'])})
+        smp = samples_of(r)
+        if not all(math.isfinite(v) for v in smp):
+            smp = [0.0] * len(smp)      # the count is right; the mean cell of such a case is compared by the oracle only
+        out.append({'ident': expected_ident(r), 'samples': [lib.frac(v) for v in smp], 'failed': bool(r['failed'])})
     return out
 
 
+def roundable(o, i, r):
+    return bool(o.get('float_means')) and bool(samples_of(r)) and math.isfinite(o['float_means'][i])
+
+
+def nonfinite_case(case):
+    return any(not math.isfinite(v) for r in case['runs'] for v in samples_of(r))
+
+
 def near_tie(samples):
-    if not samples:
+    if not samples or not all(math.isfinite(v) for v in samples):
         return False
     m = sum(Fraction(v) for v in samples) / len(samples)
     frac = m - math.floor(m)
@@ -282,12 +313,12 @@ def check_tables(ck, pool, cases):
         obs.append(o)
         ops.append({'op': 'c18.table', 'runs': model_runs(case, o['order'])})
         for i, r in enumerate(case['runs']):
-            if o.get('float_means') and samples_of(r):
+            if roundable(o, i, r):
                 ops.append({'op': 'c18.round', 'q': lib.frac(o['float_means'][i])})
     answers = iter(ck.model(ops))
     for case, o in zip(cases, obs):
         ans = next(answers)
-        rounds = [next(answers) for r in case['runs'] if o.get('float_means') and samples_of(r)]
+        rounds = [next(answers) for i, r in enumerate(case['runs']) if roundable(o, i, r)]
         n = len(case['runs'])
         inp = {'case': case}
         ck.count('rows:%d' % n)
@@ -313,6 +344,11 @@ def check_tables(ck, pool, cases):
         for k, row in enumerate(m_rows):
             pass
         tie_runs = [expected_ident(r) for r in case['runs'] if near_tie(samples_of(r))]
+        if nonfinite_case(case):
+            ck.count('run set with a non-finite total (inf / nan)')
+            tie_runs = tie_runs or [True]
+        if any(r.get('twin') for r in case['runs']):
+            ck.count('run set with runs that differ only in settings that are no column')
         if tie_runs:
             ck.count('mean-near-tie (float decides)')
             full = [k for k, row in enumerate(i_rows)]
@@ -330,7 +366,7 @@ def check_tables(ck, pool, cases):
         # rounding of the float mean the implementation really had
         k = 0
         for i, r in enumerate(case['runs']):
-            if not samples_of(r):
+            if not roundable(o, i, r):
                 continue
             want = rounds[k]['r']
             k += 1
@@ -377,7 +413,9 @@ def oracle_table(ck, case, o, inp):
     want_rows = []
     for r in case['runs']:
         smp = samples_of(r)
-        if smp:
+        if smp and not all(math.isfinite(v) for v in smp):
+            mean_cell = ['nonfinite']            # no integer can stand for it: it is shown as inf / -inf / nan
+        elif smp:
             m = sum(Fraction(v) for v in smp) / len(smp)
             mean_cell = ['n', int(round(m))]     # Fraction.__round__: nearest, ties to even
         else:
@@ -387,7 +425,14 @@ def oracle_table(ck, case, o, inp):
         fail('every_run_once', {'rows': len(rows), 'runs': n})
         return
     remaining = list(rows)
+    # runs that differ only in settings that are no column have equal identifying cells: pair exact rows first
+    pending = []
     for (w, tie, smp) in want_rows:
+        if w in remaining:
+            remaining.remove(w)
+        else:
+            pending.append((w, tie, smp))
+    for (w, tie, smp) in pending:
         hit = None
         for row in remaining:
             if row[:9] == w[:9]:
@@ -399,7 +444,11 @@ def oracle_table(ck, case, o, inp):
         remaining.remove(hit)
         if hit[9] != w[9]:
             fail('sample_count', {'run': w[:9], 'shown': hit[9], 'non_warmup_data_points': len(smp)})
-        if hit[10] != w[10]:
+        if w[10] == ['nonfinite']:
+            if not (hit[10][0] == 's' and any(x in hit[10][1].lower() for x in ('inf', 'nan'))):
+                fail('rounded_mean_or_failed', {'run': w[:9], 'shown': hit[10], 'expected': 'inf / -inf / nan',
+                                                'samples': [repr(v) for v in smp[:8]]}, kind='nonfinite')
+        elif hit[10] != w[10]:
             ok = False
             if tie and hit[10][0] == 'n' and w[10][0] == 'n' and abs(hit[10][1] - w[10][1]) <= 1:
                 ok = True     # float mean on the other side of a tie within 1e-6
@@ -530,6 +579,8 @@ def gen_cs_case(rng, n=None, incremental=None):
     runs = []
     for _ in range(n):
         kind, samples = gen_samples(rng)
+        while kind == 'nonfinite':          # the Codespeed model is over rationals
+            kind, samples = gen_samples(rng)
         failed = (not samples and rng.random() < 0.85) or rng.random() < 0.15
         runs.append({'samples': samples, 'failed': failed, 'kind': kind})
     order = list(range(n))
